@@ -207,6 +207,29 @@ def oracle_code(case):
     if arg != de_all:
         raise Fail("encode_does_not_mutate_input", arg.to01(), de_all.to01())
 
+    # scribble-and-repeat: after a call returned, invert every bit of the RETURNED buffer and of the bitarray that was
+    # passed in (both in place), then repeat the call with a fresh argument: same result as the first time.  A cache that
+    # hands out or retains a caller-visible buffer fails here.
+    calls = [("encode(message)", V.encode, m, enc_kw), ("encode(deinterleaved matrix)", V.encode, de_all, enc_kw), ("deinterleave_all_bits", V.deinterleave_all_bits, enc, {})]
+    if code == "128_72":
+        calls += [("encode(message+cs5)", V.encode, with_cs, {}), ("deinterleave_cs5_bits", V.deinterleave_cs5_bits, enc, {})]
+        calls += [("deinterleave_data_bits", V.deinterleave_data_bits, enc, {"include_cs5": flag}) for flag in (False, True)]
+    elif code == "68_28":
+        calls += [("encode(message+crc8)", V.encode, with_cs, {}), ("deinterleave_crc8_bits", V.deinterleave_crc8_bits, enc, {})]
+        calls += [("deinterleave_data_bits", V.deinterleave_data_bits, enc, {"include_crc8": flag}) for flag in (False, True)]
+    else:
+        calls += [("deinterleave_data_bits", V.deinterleave_data_bits, enc, {})]
+    for name, fn, argument, kw in calls:
+        a1 = argument.copy()
+        st, r1 = call(fn, a1, **kw)
+        saved = _ba(r1)
+        if isinstance(r1, bitarray):
+            r1.invert()
+        a1.invert()
+        st, r2 = call(fn, argument.copy(), **kw)
+        if _ba(r2) != saved:
+            raise Fail("repeated_call_equal_after_scribbling_on_returned_buffer_and_argument", _diff(r2, saved), "no difference", klass=name)
+
 
 def _diff(a, b):
     a, b = _ba(a), _ba(b)
